@@ -72,8 +72,42 @@ Proof.
   destruct (k =? a); [apply nget_map_vals | exact IH].
 Qed.
 
-Theorem consistentb_sound np pl wl rc pj :
-  consistentb np pl wl rc pj = true -> consistent np (mkStore pl wl rc pj).
+Lemma nget_in {A} (m : nmap A) k v : nget m k = Some v -> In (k, v) m.
+Proof.
+  induction m as [|[k' v'] r IH]; cbn; [discriminate|].
+  destruct (N.eqb_spec k' k) as [->|_]; [intros E; inversion E; left; reflexivity | intros E; right; apply IH; exact E].
+Qed.
+
+Lemma get2_in {A} (m : n2map A) a b v : get2 m a b = Some v -> exists i, In (a, i) m /\ In (b, v) i.
+Proof.
+  unfold get2, inner. destruct (nget m a) as [i|] eqn:E; [|discriminate].
+  intros H. exists i. split; [apply nget_in; exact E | apply nget_in; exact H].
+Qed.
+
+Lemma rows_sound d wl v ws w :
+  rows_ok d wl v = true -> rows_all d wl v = true ->
+  get2 v ws w = match get2 wl ws w with Some e => if trig d e then Some (e_tag e) else None | None => None end.
+Proof.
+  unfold rows_ok, rows_all. rewrite !forallb_forall. intros Hok Hall.
+  assert (Hv : forall t, get2 v ws w = Some t -> exists e, get2 wl ws w = Some e /\ trig d e = true /\ e_tag e = t).
+  { intros t Hg. destruct (get2_in v ws w t Hg) as (i & Hi & Hwt).
+    specialize (Hok (ws, i) Hi). cbn in Hok. rewrite forallb_forall in Hok. specialize (Hok (w, t) Hwt). cbn in Hok.
+    destruct (get2 wl ws w) as [e|]; [|discriminate]. apply andb_prop in Hok. destruct Hok as [Ht Hn].
+    apply N.eqb_eq in Hn. exists e. auto. }
+  destruct (get2 wl ws w) as [e|] eqn:Ew.
+  - destruct (trig d e) eqn:Et.
+    + destruct (get2_in wl ws w e Ew) as (i & Hi & Hwe).
+      specialize (Hall (ws, i) Hi). cbn in Hall. rewrite forallb_forall in Hall. specialize (Hall (w, e) Hwe). cbn in Hall.
+      rewrite Et in Hall. cbn in Hall. destruct (get2 v ws w) as [t|]; cbn in Hall; [|discriminate].
+      apply N.eqb_eq in Hall. subst. reflexivity.
+    + destruct (get2 v ws w) as [t|] eqn:Eg; [|reflexivity].
+      destruct (Hv t eq_refl) as (e' & E' & Ht' & _). inversion E'; subst. congruence.
+  - destruct (get2 v ws w) as [t|] eqn:Eg; [|reflexivity].
+    destruct (Hv t eq_refl) as (e' & E' & _). discriminate.
+Qed.
+
+Theorem consistentb_sound np d pl wl rc pj :
+  consistentb np d false pl wl rc pj = true -> consistent np (fun _ => d) all_projectors (mkStore pl wl rc pj).
 Proof.
   unfold consistentb, consistent. cbn [plog wlog recs proj]. set (es := map snd pl).
   intros H. repeat (apply andb_prop in H; destruct H as [H ?]).
@@ -94,15 +128,17 @@ Proof.
     destruct (N.ltb_spec w 1); [lia | reflexivity].
   - intros ws. apply Hws.
   - intros ws id. rewrite Hr. reflexivity.
-  - intros j Hlt ws w. assert (Hin : In j (nseq 0 (N.to_nat np))) by (apply nseq_in; lia).
-    specialize (Hj j Hin). apply (n2map_eqb_eq N.eqb N.eqb_eq) in Hj.
-    unfold get3. rewrite Hj. apply get2_map_vals.
+  - intros j Hlt _ ws w. assert (Hin : In j (nseq 0 (N.to_nat np))) by (apply nseq_in; lia).
+    specialize (Hj j Hin). apply andb_prop in Hj. destruct Hj as [Hok Hall]. cbn [orb] in Hall.
+    unfold get3. apply rows_sound; assumption.
 Qed.
 
+(* the oracle of a trace, unless it is the lenient copy of a trace of the AFTER DEACTIVATE variant *)
 Theorem satisfies_consistent t :
+  t_lenient t && t_deact t = false ->
   satisfies t = true ->
-  consistent (t_np t) (mkStore (t_plog t) (t_wlog t) (t_recs t) (t_proj t)).
+  consistent (t_np t) (fun _ => t_deact t) all_projectors (mkStore (t_plog t) (t_wlog t) (t_recs t) (t_proj t)).
 Proof.
-  unfold satisfies. intros H. do 3 (apply andb_prop in H; destruct H as [H _]).
+  unfold satisfies. intros Hl H. rewrite Hl in H. do 3 (apply andb_prop in H; destruct H as [H _]).
   apply consistentb_sound; exact H.
 Qed.
